@@ -305,6 +305,12 @@ class Gen:
         blip = self.E("a:blip", blip_attrs)
         pic = self.E("pic:pic", {}, self.E("pic:blipFill", {}, blip))
         g = self.E("a:graphic", {}, self.E("a:graphicData", {"uri": self.ns["pic"]}, pic))
+        if kind >= 0.85 and self.p(0.5):
+            # a chart / shape: a drawing with (usually) alt text but no picture at all
+            g = self.E("a:graphic", {}, self.E("a:graphicData", {"uri": "http://schemas.openxmlformats.org/drawingml/2006/chart"}))
+            docpr.setdefault("descr", "chart")
+            self.feat("alt_text")
+            self.feat("drawing_without_blip")
         inline = self.E("wp:inline", {}, self.E("wp:extent", {"cx": "1", "cy": "1"}),
                         self.E("wp:docPr", docpr), g)
         return self.E("w:drawing", {}, inline)
